@@ -27,8 +27,9 @@ def load_check(pid: str):
     return importlib.import_module(f"vmon.checks.{pid.lower()}")
 
 
-class CaseTimeout(Exception):
-    pass
+class CaseTimeout(BaseException):
+    """Raised by the per-case alarm; not an Exception, so that the broad handlers inside the
+    checks (which classify library failures) can never mistake it for a library failure."""
 
 
 def _alarm(signum, frame):
